@@ -59,6 +59,8 @@ def budget(tier):
 def gen(rng, i, tier):
     if i % 6 == 5:      # targeted stream: state surviving between the runs of the iterated variant
         return mesgen.gen_stale(rng)
+    if i % 10 == 6:     # targeted stream: money within 1e-7..1e-15 of rho*utility / of the cost / of another rho
+        return mesgen.gen_near(rng)
     if i % 20 == 3:     # targeted stream: nothing to share + supported zero-cost projects
         return mesgen.gen_boundary(rng, allow_irresolute=False)
     case = mesgen.gen_election(rng)
@@ -104,7 +106,7 @@ def impl(case):
     if case["ballot"] == "approval":
         same = all((pb.F(utils[v][j]) > 0) == (projs[j] in sats[v].ballot)
                    for v in range(len(sats)) for j in range(len(projs)))
-        if same and iters and not case.get("init"):
+        if same and iters and not case.get("init") and sum(mults) <= 200:
             from pabutools.election import ApprovalBallot, ApprovalProfile
             from pabutools.analysis.priceability import validate_price_system
             pays = [{p: 0 for p in projs} for _ in sats]
@@ -148,7 +150,7 @@ def nontrivial(case, o):
     if not isinstance(o, dict) or "iters" not in o or len(o["iters"]) < 2:
         return None
     return [case["costs"], case["budget"], case["ballot"], case["ballots"], case["sat"], case["multi"],
-            case["tb"], case["binary"], case["inc"], case.get("init", [])]
+            case["tb"], case["binary"], case["inc"], case.get("init", []), case.get("ballot_mults")]
 
 
 def stats(cases, obs):
@@ -165,6 +167,9 @@ def stats(cases, obs):
         d["multi"] += bool(c["multi"])
         d["stale_state_stream"] = d.get("stale_state_stream", 0) + (c.get("stream") == "stale")
         d["boundary_stream"] = d.get("boundary_stream", 0) + (c.get("stream") == "boundary")
+        d["near_boundary_stream"] = d.get("near_boundary_stream", 0) + (c.get("stream") == "near")
+        for k_ in ("near_poor", "near_rich", "exact_boundary", "near_tie", "near_afford", "bigmult"):
+            d["cases_" + k_] = d.get("cases_" + k_, 0) + bool(o["flags"].get(k_))
         d["appscore_tie_stream"] = d.get("appscore_tie_stream", 0) + (c.get("stream") == "appscore")
         d["zero_budget"] = d.get("zero_budget", 0) + (pb.F(c["budget"]) == 0)
         d["negative_scores"] = d.get("negative_scores", 0) + any(
